@@ -56,4 +56,52 @@ PROPS = {
         "partial": ["C08_wakeup is a safety statement (no reachable stuck state with credit) over all interleavings of the modelled steps; "
                     "the real multi-threaded scheduler is exercised only by the stress run"],
     },
+    "C03": {
+        "class_prefixes": ["c03-", "harness-crash"],
+        "subs": [{"name": "codec", "n_quick": 1500, "n_thorough": 40000, "model": "coq/Codec/{Enc,Dec}.v",
+             "rule": "enc cases: random Values of all 25 variants (depth <= 3, quick; <= 5 thorough), boundary lengths 0/1/253..257, "
+                     "non-ASCII strings, maps with keys of every type, arrays of every element kind (10% of the known-finding kinds); "
+                     "dec cases: the encodings, 2 structure-aware corruptions of each, a catalogue of hostile inputs (former panics, "
+                     "huge lengths, odd counts, nesting), all 1-byte strings (all 2-byte strings in thorough), random short strings; "
+                     "plus nested inputs decoded in a child process for the stack-depth probe"}],
+        "rule": "a case is `enc <value>` (to_vec vs model enc, then from_slice(to_vec(v)) == v on the implementation) or `dec <bytes>` "
+                "(from_slice vs model dec); non-trivial = an enc case outside the known-finding class that round-trips; distinct by case text",
+        "trusted": ["model scope: impl Serialize/Deserialize for Value, ser.rs Serializer (all serialize_* used by Value, write_list/map/array), "
+                    "de.rs Deserializer (parse_*, deserialize_seq/map/enum/identifier, List/Array/Map/DescribedAccess), value/de.rs visitor; "
+                    "typed composites (derive macros) are checked by the typed sub-harness on the implementation only, not modelled in Coq",
+                    "floats, chars, signed integers and timestamps are modelled as bit patterns"],
+        "assumptions": ["wf: AMQP type system + decoder count cap; arrays of null/list/map/array/described elements excluded (known finding)"],
+        "partial": ["typed protocol items (performatives, SASL, delivery states, messages): round trip is exercised on the implementation "
+                    "(sub-harness typed) but there is no Coq theorem about the derive macros"],
+    },
+    "C04": {
+        "class_prefixes": ["c04-", "harness-crash"],
+        "subs": [{"name": "codec", "n_quick": 1500, "n_thorough": 40000, "model": "coq/Codec/{Enc,Dec}.v",
+             "rule": "enc cases: random Values of all 25 variants (depth <= 3, quick; <= 5 thorough), boundary lengths 0/1/253..257, "
+                     "non-ASCII strings, maps with keys of every type, arrays of every element kind (10% of the known-finding kinds); "
+                     "dec cases: the encodings, 2 structure-aware corruptions of each, a catalogue of hostile inputs (former panics, "
+                     "huge lengths, odd counts, nesting), all 1-byte strings (all 2-byte strings in thorough), random short strings; "
+                     "plus nested inputs decoded in a child process for the stack-depth probe"}],
+        "rule": "dec cases as in C03; every decode is wrapped in catch_unwind with a counting global allocator (peak live bytes); "
+                "nested valid inputs (10..7000 levels; ..100000 thorough) are decoded in a child process so that a stack overflow is observed; "
+                "non-trivial as in C03",
+        "trusted": ["the model covers Value through the slice reader; Performative / SASL frame / Message / LazyValue and the io reader are "
+                    "exercised on the implementation only (typed sub-harness, C20)"],
+        "assumptions": [],
+        "partial": ["C04_terminates bounds the recursion depth and each loop by its count; a step-count bound linear in the input is not proved",
+                    "re-decode stability (the decoder's image is round-trippable) is checked on the implementation only"],
+    },
+    "C20": {
+        "class_prefixes": ["c20-", "harness-crash"],
+        "subs": [{"name": "codec", "n_quick": 1500, "n_thorough": 40000, "model": "coq/Codec/{Enc,Dec}.v",
+             "rule": "enc cases: random Values of all 25 variants (depth <= 3, quick; <= 5 thorough), boundary lengths 0/1/253..257, "
+                     "non-ASCII strings, maps with keys of every type, arrays of every element kind (10% of the known-finding kinds); "
+                     "dec cases: the encodings, 2 structure-aware corruptions of each, a catalogue of hostile inputs (former panics, "
+                     "huge lengths, odd counts, nesting), all 1-byte strings (all 2-byte strings in thorough), random short strings; "
+                     "plus nested inputs decoded in a child process for the stack-depth probe"}],
+        "rule": "enc cases as in C03 with serialized_size compared to to_vec().len(); non-trivial as in C03",
+        "trusted": ["model scope: size_ser.rs SizeSerializer as driven by Value; io-reader / value-tree agreement is exercised on the implementation only"],
+        "assumptions": [],
+        "partial": ["slice-vs-io reader agreement and to_value/from_value are checked by the typed sub-harness on the implementation, not proved"],
+    },
 }
